@@ -309,7 +309,7 @@ orc_line_dump_tokens (const OrcLine *line)
 static void
 orc_line_parse_tokens (OrcLine *line)
 {
-  while (line->p < line->end) {
+  while (line->p < line->end && line->n_tokens < ORC_LINE_MAX_TOKENS) {
     orc_line_skip_blanks (line);
     if (!orc_line_has_data (line) || orc_line_is_comment (line)) {
       break;
